@@ -1,8 +1,22 @@
 /-
 Lemmas.LnBound — the Newton iteration of `TwoFloat::ln` over `ℝ` (property C15, numerical part; statements collected
 in `TFV/Properties/C15l.lean`).
+
+ §0  the range of `exp` extended below `−600`: `mul_rv_rel_wide` (product `≥ 2^-960·(1 + 2^-41)`), `recip_val_wide`
+     (`|R| ≤ 2^963`), `exp_half_bound_wide` (`−1332 ≤ k`).
+ §1  `exp_bound_k`: the assembly of `ExpBound.exp_bound_split` with the reduction index `k` exposed and the table error
+     `β` as a parameter, for `x ≥ −666` with `e^x ≥ 2^-960·(1 + 2^-40)`; `exp_half_m1` (`exp_half(−1)` within `u²`, by
+     evaluation); `exp_bound_sharp` (`21u²`, or `37u²` with `x ≤ −0.7499`).
+ §2  the Newton map over `ℝ`: `prod_near`, `newton_step_real` (`e ↦ e² + 2^-92`), `newton_final_real` (sharp:
+     `(d + 10.02u²) + 5.02u²·|ln v|`).
+ §3  the same on pairs: `prod_tf`, `step_bound`, `final_bound` (`2^-101·(1 + |ln v|)`).
+ §4  assembly: `log_rv_near_hi`, `ln_eq_steps`, `ln_bound_of_seed`.
+ §5  `log10 = ln / LN_10`: `log10_real`, `div_ln10`, `log10_of_ln'`, `log10_of_ln`.
+ §6  with the seed bound `LnSeed.libm_log_coarse`: `ln_bound`, `log10_bound'`, `log10_bound`
+     (high word in `[2^-1000, 2^960 − 2^944]`).
 -/
 import TFV.Lemmas.ExpBound
+import TFV.Lemmas.LnSeed
 import TFV.Properties.C15
 import TFV.Properties.C12x
 import Mathlib.Analysis.SpecialFunctions.Log.Basic
@@ -14,14 +28,217 @@ namespace LnBound
 
 open ConstBounds ExpBound
 
+/-! ## 0. the range of `exp` extended below `−600` (as long as `e^x ≥ 2^-960·(1 + 2^-40)`)
+
+`ExpBound.exp_bound_split` stops at `−600` (the range of property C14).  The Newton iteration of `ln` on arguments up to
+`2^960` evaluates `exp(−x)` down to `x ≈ −665.4`; the ingredients below are the same proofs with wider constants: the
+reciprocal (`C01d.recip_bound` allows a high word up to `2^964`), and the final product (`mul_tt_bound_7u2_partial`
+needs a leading product `≥ 2^-960`). -/
+
+section wide
+open F64 TwoFloat
+
+/-- **`TwoFloat * TwoFloat`, purely relative**: product of magnitude in `[2^-960·(1 + 2^-41), 2^1019]` -/
+theorem mul_rv_rel_wide {x y : TwoFloat} (hx : VW x) (hy : VW y)
+    (hlo : (1 + 1 / 2 ^ 41) / 2 ^ 960 ≤ |rv x * rv y|)
+    (hhi : |rv x * rv y| ≤ 2 ^ 1019) :
+    VW (arithmetic.impl_Mul_TwoFloat_for_TwoFloat.mul x y) ∧
+    |rv (arithmetic.impl_Mul_TwoFloat_for_TwoFloat.mul x y) - rv x * rv y| ≤ 7 / 2 ^ 106 * |rv x * rv y| := by
+  show VW (arithmetic.impl_Mul_rTwoFloat_for_rTwoFloat.mul x y) ∧
+    |rv (arithmetic.impl_Mul_rTwoFloat_for_rTwoFloat.mul x y) - rv x * rv y| ≤ 7 / 2 ^ 106 * |rv x * rv y|
+  obtain ⟨bx1, bx2⟩ := PowiBound.hi_bounds hx.1
+  obtain ⟨by1, by2⟩ := PowiBound.hi_bounds hy.1
+  have hU : (0 : ℝ) < 2 ^ 1074 := by positivity
+  have eprod : rv x * rv y = ((x.V * y.V : ℤ) : ℝ) / (2 ^ 1074 * 2 ^ 1074) := by
+    unfold rv; push_cast; field_simp
+  have hVV : |x.V * y.V| ≤ (2 : ℤ) ^ 3167 := by
+    rw [eprod, abs_div, abs_of_pos (by positivity : (0 : ℝ) < 2 ^ 1074 * 2 ^ 1074), div_le_iff₀ (by positivity),
+      ← Int.cast_abs] at hhi
+    have e : (2 : ℝ) ^ 1019 * (2 ^ 1074 * 2 ^ 1074) = 2 ^ 3167 := by rw [← pow_add, ← pow_add]
+    rw [e] at hhi
+    exact_mod_cast hhi
+  have hVVlo : ((2 : ℤ) ^ 41 + 1) * 2 ^ 1147 ≤ |x.V * y.V| := by
+    rw [eprod, abs_div, abs_of_pos (by positivity : (0 : ℝ) < 2 ^ 1074 * 2 ^ 1074), le_div_iff₀ (by positivity),
+      ← Int.cast_abs] at hlo
+    have e : (1 + 1 / 2 ^ 41 : ℝ) / 2 ^ 960 * (2 ^ 1074 * 2 ^ 1074) = (2 ^ 41 + 1) * 2 ^ 1147 := by
+      have a : (2 : ℝ) ^ 1074 * 2 ^ 1074 = 2 ^ 960 * (2 ^ 41 * 2 ^ 1147) := by rw [← pow_add, ← pow_add, ← pow_add]
+      rw [a]; field_simp
+    rw [e] at hlo
+    exact_mod_cast hlo
+  have pX := abs_nonneg x.hi.toInt
+  have pY := abs_nonneg y.hi.toInt
+  have pVx := abs_nonneg x.V
+  have pVy := abs_nonneg y.V
+  have u1 : (2 ^ 53 * |x.V|) * (2 ^ 53 * |y.V|) ≤ ((2 ^ 53 + 1) * |x.hi.toInt|) * ((2 ^ 53 + 1) * |y.hi.toInt|) :=
+    mul_le_mul bx2 by2 (by positivity) (by positivity)
+  have u2 : ((2 ^ 53 - 1) * |x.hi.toInt|) * ((2 ^ 53 - 1) * |y.hi.toInt|) ≤ (2 ^ 53 * |x.V|) * (2 ^ 53 * |y.V|) :=
+    mul_le_mul bx1 by1 (by positivity) (by positivity)
+  have e1 : (2 ^ 53 * |x.V|) * (2 ^ 53 * |y.V|) = 2 ^ 106 * |x.V * y.V| := by rw [abs_mul]; ring
+  have e2 : ((2 ^ 53 + 1) * |x.hi.toInt|) * ((2 ^ 53 + 1) * |y.hi.toInt|)
+      = (2 ^ 53 + 1) ^ 2 * |x.hi.toInt * y.hi.toInt| := by rw [abs_mul]; ring
+  have e3 : ((2 ^ 53 - 1) * |x.hi.toInt|) * ((2 ^ 53 - 1) * |y.hi.toInt|)
+      = (2 ^ 53 - 1) ^ 2 * |x.hi.toInt * y.hi.toInt| := by rw [abs_mul]; ring
+  rw [e1, e2] at u1
+  rw [e1, e3] at u2
+  have hbig : (2 : ℤ) ^ 1188 ≤ |x.hi.toInt * y.hi.toInt| := by
+    have k : (2 : ℤ) ^ 1188 = 2 ^ 41 * 2 ^ 1147 := by rw [← pow_add]
+    rw [k]
+    have hS : (0 : ℤ) < 2 ^ 1147 := by positivity
+    generalize (2 : ℤ) ^ 1147 = S at *
+    generalize |x.hi.toInt * y.hi.toInt| = AB at *
+    generalize |x.V * y.V| = PR at *
+    norm_num at u1 hVVlo ⊢
+    linarith
+  have hlt : |x.hi.toInt * y.hi.toInt| < (2 : ℤ) ^ 3169 := by
+    have k2 : (2 : ℤ) ^ 3169 = 4 * 2 ^ 3167 := by norm_num
+    rw [k2]
+    generalize (2 : ℤ) ^ 3167 = S at *
+    generalize |x.hi.toInt * y.hi.toInt| = AB at *
+    generalize |x.V * y.V| = PR at *
+    norm_num at u2 ⊢
+    linarith
+  obtain ⟨hV, hb⟩ := TwoFloat.mul_tt_bound_7u2_partial hx.1 hx.2 hy.1 hy.2 (Or.inr ⟨hbig, hlt⟩)
+  refine ⟨⟨hV, TwoFloat.mul_tt_WF x y⟩, ?_⟩
+  generalize arithmetic.impl_Mul_rTwoFloat_for_rTwoFloat.mul x y = R at *
+  rw [unit_cast_eq] at hb
+  have hq : |(R.V : ℝ) * 2 ^ 1074 - x.V * y.V| * 2 ^ 106 ≤ 7 * |(x.V : ℝ) * y.V| := by
+    exact_mod_cast hb
+  have e4 : rv R - rv x * rv y = ((R.V : ℝ) * 2 ^ 1074 - x.V * y.V) / (2 ^ 1074 * 2 ^ 1074) := by
+    unfold rv; field_simp
+  have e5 : rv x * rv y = ((x.V : ℝ) * y.V) / (2 ^ 1074 * 2 ^ 1074) := by unfold rv; field_simp
+  rw [e4, e5, abs_div, abs_div, abs_of_pos (by positivity : (0 : ℝ) < 2 ^ 1074 * 2 ^ 1074), ← mul_div_assoc,
+    div_le_div_iff_of_pos_right (by positivity), div_mul_eq_mul_div, le_div_iff₀ (by positivity)]
+  exact hq
+
+/-- `recip` in rational terms, for `2^-901 ≤ |R| ≤ 2^963` (`PowiBound.recip_val` with the full range of
+`C01d.recip_bound`) -/
+theorem recip_val_wide {R : TwoFloat} (hv : R.Valid) (h1 : 1 / 2 ^ 901 ≤ |PowiBound.val R|)
+    (h2 : |PowiBound.val R| ≤ 2 ^ 963) :
+    (TwoFloat.recip R).Valid ∧ (TwoFloat.recip R).WF ∧
+      |1 - PowiBound.val (TwoFloat.recip R) * PowiBound.val R| ≤ 1 / 2 ^ 102 := by
+  have a1 : (2 : Int) ^ 173 ≤ |R.V| := PowiBound.int_lower (k := 901) (by norm_num) h1
+  have a2 : |R.V| ≤ (2 : Int) ^ 2037 := PowiBound.int_upper (k := 963) h2
+  obtain ⟨b1, b2⟩ := PowiBound.hi_bounds hv
+  have c1 : (2 : Int) ^ 58 ≤ |R.hi.toInt| := by linarith
+  have c2 : |R.hi.toInt| ≤ (2 : Int) ^ 2038 := by linarith
+  have d1 : 2 ^ 58 ≤ R.hi.toInt.natAbs := by
+    rw [← Int.natCast_natAbs] at c1
+    exact_mod_cast c1
+  have d2 : R.hi.toInt.natAbs ≤ 2 ^ 2038 := by
+    rw [← Int.natCast_natAbs] at c2
+    exact_mod_cast c2
+  obtain ⟨rv, rw'⟩ := C01d.recip_valid R hv d1 (le_trans d2 (by norm_num))
+  have hb := C01d.recip_bound R hv d1 d2
+  refine ⟨rv, rw', ?_⟩
+  generalize TwoFloat.recip R = ρ at *
+  rw [unit_cast_eq] at hb
+  have hq : (2 : ℚ) ^ 102 * |(2 : ℚ) ^ 1074 * 2 ^ 1074 - (ρ.V : ℚ) * (R.V : ℚ)| ≤ 2 ^ 1074 * 2 ^ 1074 := by
+    exact_mod_cast hb
+  unfold PowiBound.val
+  have hU : (0 : ℚ) < 2 ^ 1074 := by positivity
+  generalize (2 : ℚ) ^ 1074 = U at *
+  have e1 : 1 - (ρ.V : ℚ) / U * ((R.V : ℚ) / U) = (U * U - (ρ.V : ℚ) * (R.V : ℚ)) / (U * U) := by
+    field_simp
+  rw [e1, abs_div, abs_of_pos (mul_pos hU hU), div_le_div_iff₀ (mul_pos hU hU) (by positivity)]
+  linarith
+
+theorem hHi_pow_1332 : hHi ^ 1332 ≤ 2 ^ 961 := by decide +kernel
+
+theorem exp_half_le_961 {k : ℤ} (h0 : 0 ≤ k) (h1 : k ≤ 1332) : Real.exp ((k : ℝ) / 2) ≤ 2 ^ 961 := by
+  refine le_trans (exp_half_le (N := 1332) h0 (by exact_mod_cast h1)) ?_
+  have := (Rat.cast_le (K := ℝ)).2 hHi_pow_1332
+  push_cast at this ⊢
+  exact this
+
+/-- **`exp_half` on `−1332 ≤ k ≤ 1407`** (`ExpBound.exp_half_bound` with the wider reciprocal range): a valid pair within `24.2u²` (relative) of `exp(k/2)`
+(`8.1u²` for `k ≥ 0`; the reciprocal adds `16u²`) -/
+theorem exp_half_bound_wide (k : ℤ) (h0 : -1332 ≤ k) (h1 : k ≤ 1407) :
+    VW (explog.exp_half (⟨k⟩ : I32)) ∧
+    |rv (explog.exp_half (⟨k⟩ : I32)) - Real.exp ((k : ℝ) / 2)| ≤ 242 / 10 / 2 ^ 106 * Real.exp ((k : ℝ) / 2) := by
+  by_cases hk : 0 ≤ k
+  · obtain ⟨v, hb⟩ := exp_half_nonneg 1 k hk h1
+    refine ⟨v, le_trans hb ?_⟩
+    exact mul_le_mul_of_nonneg_right (by norm_num) (Real.exp_pos _).le
+  · have hgo : explog.exp_half (⟨k⟩ : I32) = TwoFloat.recip (explog.exp_half.go (0 + 1) (⟨-k⟩ : I32)) := by
+      show explog.exp_half.go 2 (⟨k⟩ : I32) = _
+      rw [explog.exp_half.go]
+      have hneg : (⟨k⟩ : I32).is_negative = true := by
+        show decide (k < 0) = true
+        simp; omega
+      rw [hneg]
+      simp only [if_true]
+      rfl
+    rw [hgo]
+    obtain ⟨Rv, hR⟩ := exp_half_nonneg 0 (-k) (by omega) (by omega)
+    generalize explog.exp_half.go (0 + 1) (⟨-k⟩ : I32) = R at *
+    have ecast : ((-k : ℤ) : ℝ) / 2 = -((k : ℝ) / 2) := by push_cast; ring
+    set e := Real.exp (((-k : ℤ) : ℝ) / 2) with he
+    have hepos : 0 < e := Real.exp_pos _
+    have hele : e ≤ 2 ^ 961 := exp_half_le_961 (by omega) (by omega)
+    have hege : 1 ≤ e := by
+      apply Real.one_le_exp
+      have : (0 : ℝ) ≤ ((-k : ℤ) : ℝ) := by exact_mod_cast (by omega : (0 : ℤ) ≤ -k)
+      positivity
+    have hRabs : e / 2 ≤ |rv R| ∧ |rv R| ≤ 2 * e := by
+      have h3 := abs_sub_abs_le_abs_sub (rv R) e
+      have h4 := abs_sub_abs_le_abs_sub e (rv R)
+      rw [abs_of_pos hepos] at h3 h4
+      rw [abs_sub_comm] at h4
+      have : (81 : ℝ) / 10 / 2 ^ 106 * e ≤ e / 2 := by
+        have : (81 : ℝ) / 10 / 2 ^ 106 ≤ 1 / 2 := by norm_num
+        nlinarith
+      constructor <;> linarith
+    have hq1 : (1 : ℚ) / 2 ^ 901 ≤ |PowiBound.val R| := by
+      have : ((1 / 2 ^ 901 : ℚ) : ℝ) ≤ ((|PowiBound.val R| : ℚ) : ℝ) := by
+        rw [Rat.cast_abs, ← rv_eq_val]
+        push_cast
+        have : (1 : ℝ) / 2 ^ 901 ≤ 1 / 2 := by norm_num
+        linarith [hRabs.1]
+      exact_mod_cast this
+    have hq2 : |PowiBound.val R| ≤ (2 : ℚ) ^ 963 := by
+      have : ((|PowiBound.val R| : ℚ) : ℝ) ≤ (((2 : ℚ) ^ 963 : ℚ) : ℝ) := by
+        rw [Rat.cast_abs, ← rv_eq_val]
+        push_cast
+        have : (2 : ℝ) * 2 ^ 961 ≤ 2 ^ 963 := by norm_num
+        linarith [hRabs.2]
+      exact_mod_cast this
+    obtain ⟨rv', rw', rb⟩ := recip_val_wide Rv.1 hq1 hq2
+    refine ⟨⟨rv', rw'⟩, ?_⟩
+    have rbR : |1 - rv (TwoFloat.recip R) * rv R| ≤ 1 / 2 ^ 102 := by
+      rw [rv_eq_val, rv_eq_val]
+      have := (Rat.cast_le (K := ℝ)).2 rb
+      push_cast at this ⊢
+      exact this
+    have hs : |rv R - e| ≤ 81 / 10 / 2 ^ 106 * |e| := by rw [abs_of_pos hepos]; exact hR
+    have key := recip_rel_real hepos.ne' hs rbR (by positivity) (by norm_num) (by norm_num)
+    have einv : e⁻¹ = Real.exp ((k : ℝ) / 2) := by
+      rw [he, ecast, Real.exp_neg, inv_inv]
+    rw [einv, abs_of_pos (Real.exp_pos _)] at key
+    refine le_trans key ?_
+    exact mul_le_mul_of_nonneg_right (by norm_num) (Real.exp_pos _).le
+/-- `exp(k/2) ≤ 2^1011` for `k ≤ 1400` -/
+theorem exp_half_upper {k : ℤ} (h1 : k ≤ 1400) : Real.exp ((k : ℝ) / 2) ≤ 2 ^ 1011 := by
+  by_cases hk : 0 ≤ k
+  · exact exp_half_le_1011 hk h1
+  · have : Real.exp ((k : ℝ) / 2) ≤ 1 := by
+      rw [← Real.exp_zero]
+      apply Real.exp_le_exp.2
+      have : (k : ℝ) ≤ 0 := by exact_mod_cast (by omega : k ≤ 0)
+      linarith
+    have e : (1 : ℝ) ≤ 2 ^ 1011 := by norm_num
+    linarith
+
+end wide
+
 section expk
 open F64 TwoFloat
 
 /-- **`exp` with the table error as a parameter** (the proof of `ExpBound.exp_bound_split`, with the reduction index
 `k = round(2x)` exposed): `exp x = (1 + expm1(x − k/2))·exp_half(k)`; if `exp_half(k)` is within relative `β` of
 `e^(k/2)`, the result is within `5.2u² + β + 7u²` (plus cross terms) of `e^x` -/
-theorem exp_bound_k (x : TwoFloat) (hv : x.Valid) (hw : x.WF) (hlo : -600 ≤ rv x) (hhi : rv x ≤ 700) :
-    VW (TwoFloat.exp x) ∧ ∃ k : ℤ, -1200 ≤ k ∧ k ≤ 1400 ∧ |rv x - (k : ℝ) / 2| ≤ 2501 / 10000 ∧
+theorem exp_bound_k (x : TwoFloat) (hv : x.Valid) (hw : x.WF) (hlo : -666 ≤ rv x) (hhi : rv x ≤ 700)
+    (hprod : (1 + 1 / 2 ^ 40) / 2 ^ 960 ≤ Real.exp (rv x)) :
+    VW (TwoFloat.exp x) ∧ ∃ k : ℤ, -1332 ≤ k ∧ k ≤ 1400 ∧ |rv x - (k : ℝ) / 2| ≤ 2501 / 10000 ∧
       ∀ β ε : ℝ, |rv (explog.exp_half (⟨k⟩ : I32)) - Real.exp ((k : ℝ) / 2)| ≤ β * Real.exp ((k : ℝ) / 2) →
         (52 / 10 / 2 ^ 106 + β + 52 / 10 / 2 ^ 106 * β)
           + 7 / 2 ^ 106 * (1 + (52 / 10 / 2 ^ 106 + β + 52 / 10 / 2 ^ 106 * β)) ≤ ε →
@@ -157,10 +374,10 @@ theorem exp_bound_k (x : TwoFloat) (hv : x.Valid) (hw : x.WF) (hlo : -600 ≤ rv
         mul_le_mul_of_nonneg_right (by norm_num) (abs_nonneg _)
       linarith
     -- the range of k
-    have hk1 : -1200 ≤ k := by
-      obtain ⟨d1, _⟩ := abs_le.1 hDabs
-      have : (-1201 : ℝ) < (k : ℝ) := by rw [hD] at d1; linarith
-      have : (-1201 : ℤ) < k := by exact_mod_cast this
+    have hk1 : -1332 ≤ k := by
+      obtain ⟨d1, d2⟩ := abs_le.1 hDabs
+      have : (-1333 : ℝ) < (k : ℝ) := by rw [hD] at d1 d2; linarith
+      have : (-1333 : ℤ) < k := by exact_mod_cast this
       omega
     have hk2 : k ≤ 1400 := by
       obtain ⟨_, d2⟩ := abs_le.1 hDabs
@@ -169,16 +386,16 @@ theorem exp_bound_k (x : TwoFloat) (hv : x.Valid) (hw : x.WF) (hlo : -600 ≤ rv
       omega
     obtain ⟨rvw, hr, hrabs⟩ := expm1_quarter_bound zvw zb
     obtain ⟨ezvw, hez⟩ := add_one_rv rvw (le_trans hrabs (by norm_num))
-    obtain ⟨eyvw, hey⟩ := exp_half_bound k hk1 (by omega)
+    obtain ⟨eyvw, hey⟩ := exp_half_bound_wide k hk1 (by omega)
     have hey0 : 0 ≤ k → |rv (explog.exp_half (⟨k⟩ : I32)) - Real.exp ((k : ℝ) / 2)|
         ≤ 81 / 10 / 2 ^ 106 * Real.exp ((k : ℝ) / 2) := fun h => (exp_half_nonneg 1 k h (by omega)).2
-    obtain ⟨y1, y2⟩ := exp_half_range hk1 hk2
+    have y2 := exp_half_upper hk2
     have hY := Real.exp_pos ((k : ℝ) / 2)
     generalize TwoFloat.expm1_quarter z = r at *
     generalize arithmetic.impl_Add_f64_for_TwoFloat.add r (f64lit 0x3ff0000000000000) = ez at *
     generalize heyq : explog.exp_half (⟨k⟩ : I32) = ey at *
     -- crude ranges for the final product
-    have hezr : 1 / 4 ≤ |rv ez| ∧ |rv ez| ≤ 2 := by
+    have hezr : 499 / 1000 ≤ |rv ez| ∧ |rv ez| ≤ 2 := by
       have h1 := abs_sub_abs_le_abs_sub (rv ez) (rv r + 1)
       have h2 := abs_sub_abs_le_abs_sub (rv r + 1) (rv ez)
       rw [abs_sub_comm] at h2
@@ -187,16 +404,15 @@ theorem exp_bound_k (x : TwoFloat) (hv : x.Valid) (hw : x.WF) (hlo : -600 ≤ rv
       rw [h3] at h1 h2 hez
       have h4 : (1 : ℝ) / 2 ^ 105 * (rv r + 1) ≤ 1 / 2 ^ 105 * (3 / 2) :=
         mul_le_mul_of_nonneg_left (by linarith) (by positivity)
-      have e : (1 : ℝ) / 2 ^ 105 * (3 / 2) ≤ 1 / 4 := by norm_num
+      have e : (1 : ℝ) / 2 ^ 105 * (3 / 2) ≤ 1 / 1000 := by norm_num
       constructor <;> linarith
-    have heyr : Real.exp ((k : ℝ) / 2) / 2 ≤ |rv ey| ∧ |rv ey| ≤ 2 * Real.exp ((k : ℝ) / 2) := by
+    have heyr : 999 / 1000 * Real.exp ((k : ℝ) / 2) ≤ |rv ey| ∧ |rv ey| ≤ 2 * Real.exp ((k : ℝ) / 2) := by
       have h1 := abs_sub_abs_le_abs_sub (rv ey) (Real.exp ((k : ℝ) / 2))
       have h2 := abs_sub_abs_le_abs_sub (Real.exp ((k : ℝ) / 2)) (rv ey)
       rw [abs_sub_comm] at h2
       rw [abs_of_pos hY] at h1 h2
-      have : (242 : ℝ) / 10 / 2 ^ 106 * Real.exp ((k : ℝ) / 2) ≤ Real.exp ((k : ℝ) / 2) / 2 := by
-        have : (242 : ℝ) / 10 / 2 ^ 106 ≤ 1 / 2 := by norm_num
-        nlinarith
+      have : (242 : ℝ) / 10 / 2 ^ 106 * Real.exp ((k : ℝ) / 2) ≤ 1 / 1000 * Real.exp ((k : ℝ) / 2) :=
+        mul_le_mul_of_nonneg_right (by norm_num) hY.le
       constructor <;> linarith
     have hp1 : |rv ez * rv ey| ≤ 2 ^ 1019 := by
       rw [abs_mul]
@@ -204,15 +420,22 @@ theorem exp_bound_k (x : TwoFloat) (hv : x.Valid) (hw : x.WF) (hlo : -600 ≤ rv
             mul_le_mul hezr.2 heyr.2 (abs_nonneg _) (by norm_num)
         _ ≤ 2 * (2 * 2 ^ 1011) := by linarith
         _ ≤ 2 ^ 1019 := by norm_num
-    have hp0 : 1 / 2 ^ 957 ≤ |rv ez * rv ey| := by
-      rw [abs_mul]
-      calc (1 : ℝ) / 2 ^ 957 ≤ 1 / 4 * (1 / 2 ^ 867 / 2) := by norm_num
-        _ ≤ 1 / 4 * (Real.exp ((k : ℝ) / 2) / 2) := by
-            apply mul_le_mul_of_nonneg_left _ (by norm_num); linarith
-        _ ≤ |rv ez| * |rv ey| := mul_le_mul hezr.1 heyr.1 (by positivity) (abs_nonneg _)
-    obtain ⟨resvw, hres⟩ := mul_rv_rel ezvw eyvw hp0 hp1
     have e : Real.exp D * Real.exp ((k : ℝ) / 2) = Real.exp (rv x) := by
       rw [← Real.exp_add, hD]; congr 1; ring
+    -- the exact product is within `37u²` of `e^x` (the final estimate with a rounding-free product), hence not small
+    have hp0 : (1 + 1 / 2 ^ 41) / 2 ^ 960 ≤ |rv ez * rv ey| := by
+      have h0 := (exp_final_real hDabs hz hr hez hY hey (res := rv ez * rv ey) (ε := 37 / 2 ^ 106)
+        (by rw [sub_self, abs_zero]; positivity) (by norm_num)).1
+      rw [e] at h0
+      have hE := Real.exp_pos (rv x)
+      have h1 := abs_sub_abs_le_abs_sub (Real.exp (rv x)) (rv ez * rv ey)
+      rw [abs_sub_comm, abs_of_pos hE] at h1
+      have h2 : (1 - 37 / 2 ^ 106) * ((1 + 1 / 2 ^ 40) / 2 ^ 960) ≤ (1 - 37 / 2 ^ 106) * Real.exp (rv x) :=
+        mul_le_mul_of_nonneg_left hprod (by norm_num)
+      have h3 : (1 + 1 / 2 ^ 41 : ℝ) / 2 ^ 960 ≤ (1 - 37 / 2 ^ 106) * ((1 + 1 / 2 ^ 40) / 2 ^ 960) := by
+        rw [← mul_div_assoc, div_le_div_iff_of_pos_right (by positivity)]; norm_num
+      linarith
+    obtain ⟨resvw, hres⟩ := mul_rv_rel_wide ezvw eyvw hp0 hp1
     refine ⟨resvw, k, hk1, hk2, ?_, ?_⟩
     · exact hDabs
     · intro β ε hβ hε
@@ -258,17 +481,18 @@ theorem exp_half_m1 :
 
 /-- **`exp` with the sharper case split**: relative error `21u²` unless the reduction index is `≤ −2` (then `37u²` and
 `x ≤ −0.7499`) -/
-theorem exp_bound_sharp (x : TwoFloat) (hv : x.Valid) (hw : x.WF) (hlo : -600 ≤ rv x) (hhi : rv x ≤ 700) :
+theorem exp_bound_sharp (x : TwoFloat) (hv : x.Valid) (hw : x.WF) (hlo : -666 ≤ rv x)
+    (hhi : rv x ≤ 700) (hprod : (1 + 1 / 2 ^ 40) / 2 ^ 960 ≤ Real.exp (rv x)) :
     VW (TwoFloat.exp x) ∧ ∃ d : ℝ, |rv (TwoFloat.exp x) - Real.exp (rv x)| ≤ d * Real.exp (rv x) ∧
       (d = 21 / 2 ^ 106 ∨ (d = 37 / 2 ^ 106 ∧ rv x ≤ -(7499 / 10000))) := by
-  obtain ⟨vw, k, hk1, hk2, hD, hk⟩ := exp_bound_k x hv hw hlo hhi
+  obtain ⟨vw, k, hk1, hk2, hD, hk⟩ := exp_bound_k x hv hw hlo hhi hprod
   refine ⟨vw, ?_⟩
   by_cases h0 : 0 ≤ k
   · exact ⟨21 / 2 ^ 106, hk _ _ (exp_half_nonneg 1 k h0 (by omega)).2 (by norm_num), Or.inl rfl⟩
   · by_cases h1 : k = -1
     · subst h1
       exact ⟨21 / 2 ^ 106, hk _ _ exp_half_m1 (by norm_num), Or.inl rfl⟩
-    · refine ⟨37 / 2 ^ 106, hk _ _ (exp_half_bound k hk1 (by omega)).2 (by norm_num), Or.inr ⟨rfl, ?_⟩⟩
+    · refine ⟨37 / 2 ^ 106, hk _ _ (exp_half_bound_wide k hk1 (by omega)).2 (by norm_num), Or.inr ⟨rfl, ?_⟩⟩
       have hk' : (k : ℝ) ≤ -2 := by exact_mod_cast (by omega : k ≤ -2)
       obtain ⟨_, d2⟩ := abs_le.1 hD
       linarith
@@ -470,10 +694,11 @@ theorem sub_one_rv {x : TwoFloat} (hx : VW x) (bx : |rv x| ≤ 2 ^ 1000) :
     rw [C01d.one_isVal.2, Int.natAbs_natCast, F64.unit_eq]; norm_num)
   rwa [fv_one] at h
 
-/-- the product `v·exp(−x)` for `x` within `2^-19` of `L = ln v`, `−694 ≤ L ≤ 599.9`: a valid pair `P`, and the data
+/-- the product `v·exp(−x)` for `x` within `2^-19` of `L = ln v`, `−694 ≤ L ≤ 664.23`: a valid pair `P`, and the data
 of `prod_near` with `E = exp(−x)` computed (`d = 21u²`, or `37u²` when `x ≥ 0.7499`) -/
 theorem prod_tf {v x : TwoFloat} (hv : VW v) (hx : VW x) (hpos : 0 < rv v)
-    (hL1 : -694 ≤ Real.log (rv v)) (hL2 : Real.log (rv v) ≤ 5999 / 10)
+    (hL1 : -694 ≤ Real.log (rv v)) (hL2 : Real.log (rv v) ≤ 66543 / 100)
+    (hvhi : rv v ≤ 2 ^ 960 * (1 - 1 / 2 ^ 17))
     (he : |rv x - Real.log (rv v)| ≤ 1 / 2 ^ 19) :
     VW (arithmetic.impl_Mul_TwoFloat_for_TwoFloat.mul v (TwoFloat.exp (arithmetic.impl_Neg_for_TwoFloat.neg x))) ∧
     ∃ E d : ℝ, 0 ≤ d ∧ (d = 21 / 2 ^ 106 ∨ (d = 37 / 2 ^ 106 ∧ 7499 / 10000 ≤ rv x)) ∧
@@ -487,8 +712,26 @@ theorem prod_tf {v x : TwoFloat} (hv : VW v) (hx : VW x) (hpos : 0 < rv v)
   have hN := VW_neg hx
   have hNr := rv_neg x
   have h19 : (1 : ℝ) / 2 ^ 19 ≤ 1 / 10 := by norm_num
+  have hprod : (1 + 1 / 2 ^ 40) / 2 ^ 960 ≤ Real.exp (-rv x) := by
+    have e0 : -rv x = -Real.log (rv v) + -(rv x - Real.log (rv v)) := by ring
+    rw [e0, Real.exp_add, Real.exp_neg, Real.exp_log hpos]
+    have h1 : 1 - 1 / 2 ^ 19 ≤ Real.exp (-(rv x - Real.log (rv v))) := by
+      have := Real.add_one_le_exp (-(rv x - Real.log (rv v)))
+      linarith
+    have hK : (0 : ℝ) < 2 ^ 960 := by positivity
+    have hden : (0 : ℝ) < 2 ^ 960 * (1 - 1 / 2 ^ 17) := mul_pos hK (by norm_num)
+    have h2 : (2 ^ 960 * (1 - 1 / 2 ^ 17))⁻¹ ≤ (rv v)⁻¹ := inv_anti₀ hpos hvhi
+    have c : (1 + 1 / 2 ^ 40 : ℝ) * (1 - 1 / 2 ^ 17) ≤ 1 - 1 / 2 ^ 19 := by norm_num
+    calc (1 + 1 / 2 ^ 40 : ℝ) / 2 ^ 960 ≤ (2 ^ 960 * (1 - 1 / 2 ^ 17))⁻¹ * (1 - 1 / 2 ^ 19) := by
+          rw [inv_mul_eq_div, div_le_div_iff₀ hK hden]
+          calc (1 + 1 / 2 ^ 40 : ℝ) * (2 ^ 960 * (1 - 1 / 2 ^ 17))
+              = 2 ^ 960 * ((1 + 1 / 2 ^ 40) * (1 - 1 / 2 ^ 17)) := by ring
+            _ ≤ 2 ^ 960 * (1 - 1 / 2 ^ 19) := mul_le_mul_of_nonneg_left c hK.le
+            _ = (1 - 1 / 2 ^ 19) * 2 ^ 960 := by ring
+      _ ≤ (rv v)⁻¹ * Real.exp (-(rv x - Real.log (rv v))) :=
+          mul_le_mul h2 h1 (by norm_num) (inv_nonneg.2 hpos.le)
   obtain ⟨hE, d, hEb, hd⟩ := exp_bound_sharp (arithmetic.impl_Neg_for_TwoFloat.neg x) hN.1 hN.2
-    (by rw [hNr]; linarith) (by rw [hNr]; linarith)
+    (by rw [hNr]; linarith) (by rw [hNr]; linarith) (by rw [hNr]; exact hprod)
   rw [hNr] at hEb hd
   generalize TwoFloat.exp (arithmetic.impl_Neg_for_TwoFloat.neg x) = Ex at *
   have hd0 : 0 ≤ d := by rcases hd with h | ⟨h, _⟩ <;> rw [h] <;> positivity
@@ -520,12 +763,13 @@ def corr (v x : TwoFloat) : TwoFloat :=
 /-- **an intermediate Newton step of `ln`**, `x ← x + (v·exp(−x) − 1)`: from an error `|x − ln v| ≤ 2^-19` to
 `(x − ln v)² + 2^-92` -/
 theorem step_bound {v x : TwoFloat} (hv : VW v) (hx : VW x) (hpos : 0 < rv v)
-    (hL1 : -694 ≤ Real.log (rv v)) (hL2 : Real.log (rv v) ≤ 5999 / 10)
+    (hL1 : -694 ≤ Real.log (rv v)) (hL2 : Real.log (rv v) ≤ 66543 / 100)
+    (hvhi : rv v ≤ 2 ^ 960 * (1 - 1 / 2 ^ 17))
     (he : |rv x - Real.log (rv v)| ≤ 1 / 2 ^ 19) :
     VW (arithmetic.impl_AddAssign_TwoFloat_for_TwoFloat.add_assign x (corr v x)) ∧
     |rv (arithmetic.impl_AddAssign_TwoFloat_for_TwoFloat.add_assign x (corr v x)) - Real.log (rv v)|
       ≤ (rv x - Real.log (rv v)) ^ 2 + 1 / 2 ^ 92 := by
-  obtain ⟨hP, E, d, hd0, hd, hE, hPb, hP4⟩ := prod_tf hv hx hpos hL1 hL2 he
+  obtain ⟨hP, E, d, hd0, hd, hE, hPb, hP4⟩ := prod_tf hv hx hpos hL1 hL2 hvhi he
   have hd37 : d ≤ 37 / 2 ^ 106 := by rcases hd with h | ⟨h, _⟩ <;> (rw [h]; try norm_num)
   unfold corr
   generalize arithmetic.impl_Mul_TwoFloat_for_TwoFloat.mul v (TwoFloat.exp (arithmetic.impl_Neg_for_TwoFloat.neg x))
@@ -554,7 +798,8 @@ theorem step_bound {v x : TwoFloat} (hv : VW v) (hx : VW x) (hpos : 0 < rv v)
 /-- **the last Newton step of `ln`**, `(x + v·exp(−x)) − 1` with `|x − ln v| ≤ 2^-70`: error at most
 `2^-101·(1 + |ln v|)` -/
 theorem final_bound {v x : TwoFloat} (hv : VW v) (hx : VW x) (hpos : 0 < rv v)
-    (hL1 : -694 ≤ Real.log (rv v)) (hL2 : Real.log (rv v) ≤ 5999 / 10)
+    (hL1 : -694 ≤ Real.log (rv v)) (hL2 : Real.log (rv v) ≤ 66543 / 100)
+    (hvhi : rv v ≤ 2 ^ 960 * (1 - 1 / 2 ^ 17))
     (he : |rv x - Real.log (rv v)| ≤ 1 / 2 ^ 70) :
     VW (arithmetic.impl_Sub_f64_for_TwoFloat.sub (arithmetic.impl_Add_TwoFloat_for_TwoFloat.add x
       (arithmetic.impl_Mul_TwoFloat_for_TwoFloat.mul v (TwoFloat.exp (arithmetic.impl_Neg_for_TwoFloat.neg x))))
@@ -563,7 +808,7 @@ theorem final_bound {v x : TwoFloat} (hv : VW v) (hx : VW x) (hpos : 0 < rv v)
       (arithmetic.impl_Mul_TwoFloat_for_TwoFloat.mul v (TwoFloat.exp (arithmetic.impl_Neg_for_TwoFloat.neg x))))
       (f64lit 0x3ff0000000000000)) - Real.log (rv v)| ≤ 1 / 2 ^ 101 * (1 + |Real.log (rv v)|) := by
   have he19 : |rv x - Real.log (rv v)| ≤ 1 / 2 ^ 19 := le_trans he (by norm_num)
-  obtain ⟨hP, E, d, hd0, hd, hE, hPb, hP4⟩ := prod_tf hv hx hpos hL1 hL2 he19
+  obtain ⟨hP, E, d, hd0, hd, hE, hPb, hP4⟩ := prod_tf hv hx hpos hL1 hL2 hvhi he19
   have hd37 : d ≤ 37 / 2 ^ 106 := by rcases hd with h | ⟨h, _⟩ <;> (rw [h]; try norm_num)
   generalize arithmetic.impl_Mul_TwoFloat_for_TwoFloat.mul v (TwoFloat.exp (arithmetic.impl_Neg_for_TwoFloat.neg x))
     = P at *
@@ -618,7 +863,7 @@ theorem fv_pos_iff {f : F64} : 0 < fv f ↔ 0 < f.toInt := by
 
 /-- a valid pair with a positive high word is positive, and `ln(hi + lo)` is within `2^-52` of `ln hi` -/
 theorem log_rv_near_hi {v : TwoFloat} (hv : v.Valid) (h : 0 < fv v.hi) :
-    0 < rv v ∧ |Real.log (rv v) - Real.log (fv v.hi)| ≤ 1 / 2 ^ 52 := by
+    0 < rv v ∧ |Real.log (rv v) - Real.log (fv v.hi)| ≤ 1 / 2 ^ 52 ∧ rv v ≤ (1 + 1 / 2 ^ 53) * fv v.hi := by
   have hH : 0 < v.hi.toInt := fv_pos_iff.1 h
   have hV : 0 < v.V := by
     by_contra hc
@@ -633,7 +878,13 @@ theorem log_rv_near_hi {v : TwoFloat} (hv : v.Valid) (h : 0 < fv v.hi) :
   have c1 : ((2 : ℝ) ^ 53 - 1) * (v.hi.toInt : ℝ) ≤ 2 ^ 53 * (v.V : ℝ) := by exact_mod_cast b1
   have c2 : (2 : ℝ) ^ 53 * (v.V : ℝ) ≤ (2 ^ 53 + 1) * (v.hi.toInt : ℝ) := by exact_mod_cast b2
   have hrv : 0 < rv v := div_pos hVr hU
-  refine ⟨hrv, ?_⟩
+  refine ⟨hrv, ?_, ?_⟩
+  swap
+  · unfold rv fv
+    rw [← mul_div_assoc, div_le_div_iff_of_pos_right hU]
+    have e : (1 + 1 / 2 ^ 53 : ℝ) = (2 ^ 53 + 1) / 2 ^ 53 := by norm_num
+    rw [e, div_mul_eq_mul_div, le_div_iff₀ (by positivity)]
+    linarith
   rw [← Real.log_div hrv.ne' h.ne']
   have er : rv v / fv v.hi = (v.V : ℝ) / (v.hi.toInt : ℝ) := by
     unfold rv fv; field_simp
@@ -655,9 +906,9 @@ theorem log_rv_near_hi {v : TwoFloat} (hv : v.Valid) (h : 0 < fv v.hi) :
   · have : ((2 : ℝ) ^ 53 + 1) / 2 ^ 53 ≤ 1 + 1 / 2 ^ 52 := by norm_num
     linarith
 
-/-- `ln` of a high word in `[2^-1000, 2^865]` -/
-theorem log_hi_range {h : ℝ} (h1 : 1 / 2 ^ 1000 ≤ h) (h2 : h ≤ 2 ^ 865) :
-    -6932 / 10 ≤ Real.log h ∧ Real.log h ≤ 5996 / 10 := by
+/-- `ln` of a high word in `[2^-1000, 2^960]` -/
+theorem log_hi_range {h : ℝ} (h1 : 1 / 2 ^ 1000 ≤ h) (h2 : h ≤ 2 ^ 960) :
+    -6932 / 10 ≤ Real.log h ∧ Real.log h ≤ 665422 / 1000 := by
   have hpos : 0 < h := lt_of_lt_of_le (by positivity) h1
   have l1 := Real.log_two_lt_d9
   have l2 := Real.log_two_gt_d9
@@ -687,19 +938,33 @@ theorem ln_eq_steps (v : TwoFloat)
   rfl
 
 /-- **accuracy of `TwoFloat::ln`, given the accuracy of the seed**: for a valid `v` with high word in
-`[2^-1000, 2^865]`, `|ln(v) − ln v| ≤ 2^-101·(1 + |ln v|)` -/
+`[2^-1000, 2^960 − 2^944]`, `|ln(v) − ln v| ≤ 2^-101·(1 + |ln v|)` -/
 theorem ln_bound_of_seed (v : TwoFloat) (hv : v.Valid) (hw : v.WF)
-    (hlo : 1 / 2 ^ 1000 ≤ fv v.hi) (hhi : fv v.hi ≤ 2 ^ 865)
+    (hlo : 1 / 2 ^ 1000 ≤ fv v.hi) (hhi : fv v.hi ≤ 2 ^ 960 - 2 ^ 944)
     (hseed : (Libm.log v.hi).is_finite = true ∧ |fv (Libm.log v.hi) - Real.log (fv v.hi)| ≤ 1 / 2 ^ 20) :
     VW (TwoFloat.ln v) ∧
     |rv (TwoFloat.ln v) - Real.log (rv v)| ≤ 1 / 2 ^ 101 * (1 + |Real.log (rv v)|) := by
   have hhpos : 0 < fv v.hi := lt_of_lt_of_le (by positivity) hlo
-  obtain ⟨hpos, hnear⟩ := log_rv_near_hi hv hhpos
-  obtain ⟨g1, g2⟩ := log_hi_range hlo hhi
+  obtain ⟨hpos, hnear, hvle⟩ := log_rv_near_hi hv hhpos
+  have hhi' : fv v.hi ≤ 2 ^ 960 := le_trans hhi (by norm_num)
+  obtain ⟨g1, g2⟩ := log_hi_range hlo hhi'
+  have hvhi : rv v ≤ 2 ^ 960 * (1 - 1 / 2 ^ 17) := by
+    have h1 : (1 + 1 / 2 ^ 53 : ℝ) * fv v.hi ≤ (1 + 1 / 2 ^ 53) * (2 ^ 960 - 2 ^ 944) :=
+      mul_le_mul_of_nonneg_left hhi (by positivity)
+    have h2 : (1 + 1 / 2 ^ 53 : ℝ) * (2 ^ 960 - 2 ^ 944) ≤ 2 ^ 960 * (1 - 1 / 2 ^ 17) := by
+      have e : (2 : ℝ) ^ 960 = 2 ^ 16 * 2 ^ 944 := by rw [← pow_add]
+      have hK : (0 : ℝ) < 2 ^ 944 := by positivity
+      rw [e]
+      generalize (2 : ℝ) ^ 944 = K at *
+      have c : (1 + 1 / 2 ^ 53 : ℝ) * (2 ^ 16 - 1) ≤ 2 ^ 16 * (1 - 1 / 2 ^ 17) := by norm_num
+      calc (1 + 1 / 2 ^ 53 : ℝ) * (2 ^ 16 * K - K) = ((1 + 1 / 2 ^ 53) * (2 ^ 16 - 1)) * K := by ring
+        _ ≤ (2 ^ 16 * (1 - 1 / 2 ^ 17)) * K := mul_le_mul_of_nonneg_right c hK.le
+        _ = 2 ^ 16 * K * (1 - 1 / 2 ^ 17) := by ring
+    linarith
   obtain ⟨n1, n2⟩ := abs_le.1 hnear
   have h52 : (1 : ℝ) / 2 ^ 52 ≤ 1 / 10 := by norm_num
   have hL1 : -694 ≤ Real.log (rv v) := by linarith
-  have hL2 : Real.log (rv v) ≤ 5999 / 10 := by linarith
+  have hL2 : Real.log (rv v) ≤ 66543 / 100 := by linarith
   have hVpos : 0 < v.V := by
     have : (0 : ℝ) < (v.V : ℝ) := by
       have : rv v = (v.V : ℝ) / 2 ^ 1074 := rfl
@@ -731,7 +996,7 @@ theorem ln_bound_of_seed (v : TwoFloat) (hv : v.Valid) (hw : v.WF)
       rw [abs_le]
       have : (1 : ℝ) / 2 ^ 20 + 1 / 2 ^ 52 ≤ 1 / 2 ^ 19 := by norm_num
       constructor <;> linarith
-    obtain ⟨hx1, hb1⟩ := step_bound ⟨hv, hw⟩ hx0.1 hpos hL1 hL2 he0
+    obtain ⟨hx1, hb1⟩ := step_bound ⟨hv, hw⟩ hx0.1 hpos hL1 hL2 hvhi he0
     generalize arithmetic.impl_AddAssign_TwoFloat_for_TwoFloat.add_assign x0 (corr v x0) = x1 at *
     have he1 : |rv x1 - Real.log (rv v)| ≤ 1 / 2 ^ 37 := by
       refine le_trans hb1 ?_
@@ -739,7 +1004,7 @@ theorem ln_bound_of_seed (v : TwoFloat) (hv : v.Valid) (hw : v.WF)
         rw [← sq_abs]; exact pow_le_pow_left₀ (abs_nonneg _) he0 2
       have e : ((1 : ℝ) / 2 ^ 19) ^ 2 + 1 / 2 ^ 92 ≤ 1 / 2 ^ 37 := by norm_num
       linarith
-    obtain ⟨hx2, hb2⟩ := step_bound ⟨hv, hw⟩ hx1 hpos hL1 hL2 (le_trans he1 (by norm_num))
+    obtain ⟨hx2, hb2⟩ := step_bound ⟨hv, hw⟩ hx1 hpos hL1 hL2 hvhi (le_trans he1 (by norm_num))
     generalize arithmetic.impl_AddAssign_TwoFloat_for_TwoFloat.add_assign x1 (corr v x1) = x2 at *
     have he2 : |rv x2 - Real.log (rv v)| ≤ 1 / 2 ^ 70 := by
       refine le_trans hb2 ?_
@@ -747,7 +1012,7 @@ theorem ln_bound_of_seed (v : TwoFloat) (hv : v.Valid) (hw : v.WF)
         rw [← sq_abs]; exact pow_le_pow_left₀ (abs_nonneg _) he1 2
       have e : ((1 : ℝ) / 2 ^ 37) ^ 2 + 1 / 2 ^ 92 ≤ 1 / 2 ^ 70 := by norm_num
       linarith
-    exact final_bound ⟨hv, hw⟩ hx2 hpos hL1 hL2 he2
+    exact final_bound ⟨hv, hw⟩ hx2 hpos hL1 hL2 hvhi he2
   · -- `v == 1.0`: the result is exactly `0 = ln 1`
     rw [C15.ln_one v hone, C15.zero_words]
     have hV1 : rv v = 1 := by
@@ -838,8 +1103,8 @@ theorem log10_real {L T C Q c : ℝ} (hc : 23 / 10 ≤ c)
 theorem LN_10_facts : consts.LN_10.Valid ∧ consts.LN_10.WF ∧ (2 : ℤ) ^ 1075 ≤ consts.LN_10.hi.toInt ∧
     consts.LN_10.hi.toInt ≤ (2 : ℤ) ^ 1076 := by decide +kernel
 
-/-- **`T / LN_10` for a valid `T` with `2^-100 ≤ |T| ≤ 701`**: valid, relative error `2^-102` -/
-theorem div_ln10 {T : TwoFloat} (hT : VW T) (h1 : 1 / 2 ^ 100 ≤ |rv T|) (h2 : |rv T| ≤ 701) :
+/-- **`T / LN_10` for a valid `T` with `2^-960 ≤ |T| ≤ 701`**: valid, relative error `2^-102` -/
+theorem div_ln10 {T : TwoFloat} (hT : VW T) (h1 : 1 / 2 ^ 960 ≤ |rv T|) (h2 : |rv T| ≤ 701) :
     VW (arithmetic.impl_Div_TwoFloat_for_TwoFloat.div T consts.LN_10) ∧
     |rv T - rv (arithmetic.impl_Div_TwoFloat_for_TwoFloat.div T consts.LN_10) * rv consts.LN_10|
       ≤ 1 / 2 ^ 102 * |rv T| := by
@@ -849,9 +1114,9 @@ theorem div_ln10 {T : TwoFloat} (hT : VW T) (h1 : 1 / 2 ^ 100 ≤ |rv T|) (h2 : 
   obtain ⟨cv, cw, cb1, cb2⟩ := LN_10_facts
   have hU : (0 : ℝ) < 2 ^ 1074 := by positivity
   -- integer magnitude of T
-  have hV1 : (2 : ℤ) ^ 974 ≤ |T.V| := by
+  have hV1 : (2 : ℤ) ^ 114 ≤ |T.V| := by
     rw [rv_abs, le_div_iff₀ hU] at h1
-    have e : (1 : ℝ) / 2 ^ 100 * 2 ^ 1074 = 2 ^ 974 := by
+    have e : (1 : ℝ) / 2 ^ 960 * 2 ^ 1074 = 2 ^ 114 := by
       rw [one_div, inv_mul_eq_div, div_eq_iff (by positivity), ← pow_add]
     rw [e] at h1
     exact_mod_cast h1
@@ -859,10 +1124,10 @@ theorem div_ln10 {T : TwoFloat} (hT : VW T) (h1 : 1 / 2 ^ 100 ≤ |rv T|) (h2 : 
     rw [rv_abs, div_le_iff₀ hU] at h2
     exact_mod_cast h2
   obtain ⟨b1, b2⟩ := PowiBound.hi_bounds hT.1
-  have hA1 : (2 : ℤ) ^ 973 ≤ |T.hi.toInt| := by
-    have e : (2 : ℤ) ^ 974 = 2 * 2 ^ 973 := by norm_num
+  have hA1 : (2 : ℤ) ^ 113 ≤ |T.hi.toInt| := by
+    have e : (2 : ℤ) ^ 114 = 2 * 2 ^ 113 := by norm_num
     rw [e] at hV1
-    generalize (2 : ℤ) ^ 973 = S at *
+    generalize (2 : ℤ) ^ 113 = S at *
     generalize |T.V| = W at *
     generalize |T.hi.toInt| = H at *
     norm_num at b2 ⊢
@@ -878,9 +1143,9 @@ theorem div_ln10 {T : TwoFloat} (hT : VW T) (h1 : 1 / 2 ^ 100 ≤ |rv T|) (h2 : 
   have hBabs : |consts.LN_10.hi.toInt| = consts.LN_10.hi.toInt := abs_of_pos (lt_of_lt_of_le (by positivity) cb1)
   have hAU : |T.hi.toInt * (unit : Int)| = |T.hi.toInt| * 2 ^ 1074 := by
     rw [abs_mul, unit_cast_eq, abs_of_pos (by positivity : (0 : ℤ) < 2 ^ 1074)]
-  have p1 : (2 : ℤ) ^ 973 * 2 ^ 1074 = 2 ^ 2047 := by rw [← pow_add]
+  have p1 : (2 : ℤ) ^ 113 * 2 ^ 1074 = 2 ^ 1187 := by rw [← pow_add]
   have p2 : (2 : ℤ) ^ 1085 * 2 ^ 1074 = 2 ^ 2159 := by rw [← pow_add]
-  have hAUlo : (2 : ℤ) ^ 2047 ≤ |T.hi.toInt * (unit : Int)| := by
+  have hAUlo : (2 : ℤ) ^ 1187 ≤ |T.hi.toInt * (unit : Int)| := by
     rw [hAU, ← p1]; exact mul_le_mul_of_nonneg_right hA1 (by positivity)
   have hAUhi : |T.hi.toInt * (unit : Int)| ≤ (2 : ℤ) ^ 2159 := by
     rw [hAU, ← p2]; exact mul_le_mul_of_nonneg_right hA2 (by positivity)
@@ -889,7 +1154,7 @@ theorem div_ln10 {T : TwoFloat} (hT : VW T) (h1 : 1 / 2 ^ 100 ≤ |rv T|) (h2 : 
       ?_, ?_⟩
     · rw [hBabs]
       calc (2 : ℤ) ^ 64 * consts.LN_10.hi.toInt ≤ 2 ^ 64 * 2 ^ 1076 := mul_le_mul_of_nonneg_left cb2 (by positivity)
-        _ ≤ 2 ^ 2047 := by norm_num
+        _ ≤ 2 ^ 1187 := by norm_num
         _ ≤ _ := hAUlo
     · rw [hBabs]
       calc |T.hi.toInt * (unit : Int)| ≤ (2 : ℤ) ^ 2159 := hAUhi
@@ -898,7 +1163,7 @@ theorem div_ln10 {T : TwoFloat} (hT : VW T) (h1 : 1 / 2 ^ 100 ≤ |rv T|) (h2 : 
   have hB : 2 ^ 110 * |consts.LN_10.hi.toInt| ≤ |T.hi.toInt * (unit : Int)| := by
     rw [hBabs]
     calc (2 : ℤ) ^ 110 * consts.LN_10.hi.toInt ≤ 2 ^ 110 * 2 ^ 1076 := mul_le_mul_of_nonneg_left cb2 (by positivity)
-      _ ≤ 2 ^ 2047 := by norm_num
+      _ ≤ 2 ^ 1187 := by norm_num
       _ ≤ _ := hAUlo
   have hA : (2 : ℤ) ^ 110 ≤ |T.hi.toInt| := le_trans (by norm_num) hA1
   obtain ⟨qv, qw⟩ := TwoFloat.div_tt_valid_of_range hT.1 hT.2 cv R
@@ -916,11 +1181,11 @@ theorem div_ln10 {T : TwoFloat} (hT : VW T) (h1 : 1 / 2 ^ 100 ≤ |rv T|) (h2 : 
     div_le_div_iff_of_pos_right (by positivity), one_div_mul_eq_div, le_div_iff₀ (by positivity)]
   linarith
 
-/-- **accuracy of `log10`, given the `ln` bound**: `|log10(v) − log₁₀ v| ≤ 2^-100·(1 + |log₁₀ v|)`, provided `v` is
-not within `≈ 2^-99` of `1` (so that the numerator `ln v` of the long division is outside the underflow range) -/
-theorem log10_of_ln {v : TwoFloat} (hT : VW (TwoFloat.ln v)) (hL : |Real.log (rv v)| ≤ 700)
+/-- **accuracy of `log10`, given the `ln` bound and a numerator outside the underflow range** (`|ln(v)| ≥ 2^-960`, a
+condition on the COMPUTED logarithm): `|log10(v) − log₁₀ v| ≤ 2^-100·(1 + |log₁₀ v|)` -/
+theorem log10_of_ln' {v : TwoFloat} (hT : VW (TwoFloat.ln v)) (hL : |Real.log (rv v)| ≤ 700)
     (hb : |rv (TwoFloat.ln v) - Real.log (rv v)| ≤ 1 / 2 ^ 101 * (1 + |Real.log (rv v)|))
-    (hfar : 1 / 2 ^ 99 ≤ |Real.log (rv v)|) :
+    (hT1 : 1 / 2 ^ 960 ≤ |rv (TwoFloat.ln v)|) :
     VW (TwoFloat.log10 v) ∧
     |rv (TwoFloat.log10 v) - Real.log (rv v) / Real.log 10|
       ≤ 1 / 2 ^ 100 * (1 + |Real.log (rv v) / Real.log 10|) := by
@@ -930,19 +1195,8 @@ theorem log10_of_ln {v : TwoFloat} (hT : VW (TwoFloat.ln v)) (hL : |Real.log (rv
   generalize TwoFloat.ln v = T at *
   have hLa := abs_nonneg (Real.log (rv v))
   have h1 := abs_sub_abs_le_abs_sub (rv T) (Real.log (rv v))
-  have h2 := abs_sub_abs_le_abs_sub (Real.log (rv v)) (rv T)
-  rw [abs_sub_comm] at h2
   have e101 : (1 : ℝ) / 2 ^ 101 * (1 + |Real.log (rv v)|) ≤ 1 / 2 ^ 101 * 701 :=
     mul_le_mul_of_nonneg_left (by linarith) (by positivity)
-  have hT1 : 1 / 2 ^ 100 ≤ |rv T| := by
-    have e : (1 : ℝ) / 2 ^ 101 * (1 + |Real.log (rv v)|) ≤ 1 / 2 ^ 101 + 1 / 4 * |Real.log (rv v)| := by
-      have : (1 : ℝ) / 2 ^ 101 ≤ 1 / 4 := by norm_num
-      nlinarith
-    have e99 : (1 : ℝ) / 2 ^ 99 = 4 / 2 ^ 101 := by norm_num
-    have e100 : (1 : ℝ) / 2 ^ 100 = 2 / 2 ^ 101 := by norm_num
-    rw [e99] at hfar
-    rw [e100]
-    linarith
   have hT2 : |rv T| ≤ 701 := by
     have : (1 : ℝ) / 2 ^ 101 * 701 ≤ 1 := by norm_num
     linarith
@@ -959,6 +1213,80 @@ theorem log10_of_ln {v : TwoFloat} (hT : VW (TwoFloat.ln v)) (hL : |Real.log (rv
     rwa [abs_of_pos (by linarith : (0 : ℝ) < Real.log 10)] at this
   exact log10_real hc hb hC hQb
 
+/-- **accuracy of `log10`, given the `ln` bound**: `|log10(v) − log₁₀ v| ≤ 2^-100·(1 + |log₁₀ v|)`, provided `v` is
+not within `≈ 2^-99` of `1` (so that the numerator `ln v` of the long division is certainly outside the underflow
+range) -/
+theorem log10_of_ln {v : TwoFloat} (hT : VW (TwoFloat.ln v)) (hL : |Real.log (rv v)| ≤ 700)
+    (hb : |rv (TwoFloat.ln v) - Real.log (rv v)| ≤ 1 / 2 ^ 101 * (1 + |Real.log (rv v)|))
+    (hfar : 1 / 2 ^ 99 ≤ |Real.log (rv v)|) :
+    VW (TwoFloat.log10 v) ∧
+    |rv (TwoFloat.log10 v) - Real.log (rv v) / Real.log 10|
+      ≤ 1 / 2 ^ 100 * (1 + |Real.log (rv v) / Real.log 10|) := by
+  refine log10_of_ln' hT hL hb ?_
+  have hLa := abs_nonneg (Real.log (rv v))
+  have h2 := abs_sub_abs_le_abs_sub (Real.log (rv v)) (rv (TwoFloat.ln v))
+  rw [abs_sub_comm] at h2
+  have e : (1 : ℝ) / 2 ^ 101 * (1 + |Real.log (rv v)|) ≤ 1 / 2 ^ 101 + 1 / 4 * |Real.log (rv v)| := by
+    have : (1 : ℝ) / 2 ^ 101 ≤ 1 / 4 := by norm_num
+    nlinarith
+  have e99 : (1 : ℝ) / 2 ^ 99 = 4 / 2 ^ 101 := by norm_num
+  have e960 : (1 : ℝ) / 2 ^ 960 ≤ 2 / 2 ^ 101 := by
+    rw [div_le_div_iff₀ (by positivity) (by positivity)]
+    norm_num
+  rw [e99] at hfar
+  linarith
+
 end log10
+
+/-! ## 6. the unconditional statements -/
+
+section final
+open F64 TwoFloat
+
+/-- the seed `libm::log(hi)` of a finite positive well-formed high word (`LnSeed.libm_log_coarse`) -/
+theorem seed_ok {h : F64} (hf : h.is_finite = true) (hw : h.WF) (hp : 0 < fv h) :
+    (Libm.log h).is_finite = true ∧ |fv (Libm.log h) - Real.log (fv h)| ≤ 1 / 2 ^ 20 := by
+  obtain ⟨s, n, rfl⟩ := is_finite_iff.mp hf
+  have := fv_pos_iff.1 hp
+  cases s
+  · have hn : 0 < n := by simpa [toInt] using this
+    exact LnSeed.libm_log_coarse n hn hw
+  · exfalso; simp [toInt] at this; omega
+
+/-- **accuracy of `TwoFloat::ln`**: valid `v`, high word in `[2^-1000, 2^960 − 2^944]` -/
+theorem ln_bound (v : TwoFloat) (hv : v.Valid) (hw : v.WF)
+    (hlo : 1 / 2 ^ 1000 ≤ fv v.hi) (hhi : fv v.hi ≤ 2 ^ 960 - 2 ^ 944) :
+    VW (TwoFloat.ln v) ∧
+    |rv (TwoFloat.ln v) - Real.log (rv v)| ≤ 1 / 2 ^ 101 * (1 + |Real.log (rv v)|) :=
+  ln_bound_of_seed v hv hw hlo hhi (seed_ok hv.1 hw.1 (lt_of_lt_of_le (by positivity) hlo))
+
+/-- `|ln v| ≤ 700` on the range -/
+theorem log_abs_le (v : TwoFloat) (hv : v.Valid) (hlo : 1 / 2 ^ 1000 ≤ fv v.hi) (hhi : fv v.hi ≤ 2 ^ 960 - 2 ^ 944) :
+    |Real.log (rv v)| ≤ 700 := by
+  obtain ⟨_, hnear, _⟩ := log_rv_near_hi hv (lt_of_lt_of_le (by positivity) hlo)
+  obtain ⟨g1, g2⟩ := log_hi_range hlo (le_trans hhi (by norm_num))
+  obtain ⟨n1, n2⟩ := abs_le.1 hnear
+  have h52 : (1 : ℝ) / 2 ^ 52 ≤ 1 / 10 := by norm_num
+  exact abs_le.2 ⟨by linarith, by linarith⟩
+
+/-- **accuracy of `TwoFloat::log10`** when the computed `ln(v)` is outside the underflow range (`≥ 2^-960`) -/
+theorem log10_bound' (v : TwoFloat) (hv : v.Valid) (hw : v.WF)
+    (hlo : 1 / 2 ^ 1000 ≤ fv v.hi) (hhi : fv v.hi ≤ 2 ^ 960 - 2 ^ 944) (hT1 : 1 / 2 ^ 960 ≤ |rv (TwoFloat.ln v)|) :
+    VW (TwoFloat.log10 v) ∧
+    |rv (TwoFloat.log10 v) - Real.log (rv v) / Real.log 10|
+      ≤ 1 / 2 ^ 100 * (1 + |Real.log (rv v) / Real.log 10|) := by
+  obtain ⟨h1, h2⟩ := ln_bound v hv hw hlo hhi
+  exact log10_of_ln' h1 (log_abs_le v hv hlo hhi) h2 hT1
+
+/-- **accuracy of `TwoFloat::log10`**: valid `v`, high word in `[2^-1000, 2^960 − 2^944]`, `|ln v| ≥ 2^-99` -/
+theorem log10_bound (v : TwoFloat) (hv : v.Valid) (hw : v.WF)
+    (hlo : 1 / 2 ^ 1000 ≤ fv v.hi) (hhi : fv v.hi ≤ 2 ^ 960 - 2 ^ 944) (hfar : 1 / 2 ^ 99 ≤ |Real.log (rv v)|) :
+    VW (TwoFloat.log10 v) ∧
+    |rv (TwoFloat.log10 v) - Real.log (rv v) / Real.log 10|
+      ≤ 1 / 2 ^ 100 * (1 + |Real.log (rv v) / Real.log 10|) := by
+  obtain ⟨h1, h2⟩ := ln_bound v hv hw hlo hhi
+  exact log10_of_ln h1 (log_abs_le v hv hlo hhi) h2 hfar
+
+end final
 
 end LnBound
